@@ -156,6 +156,7 @@ fn server_history(rec: &mut Rec, ctx: &Ctx, idx: u64, rng: &mut ChaCha20Rng) {
     if !view_ok(rec, &live, &shadow, &p, "live-server", &hist) {
       return;
     }
+    rec.evals += 1;
     rec.ev("exports");
     let bytes = match bincode::serialize(&server.get_private_key()) {
       Ok(b) => b,
